@@ -1,7 +1,23 @@
 import WK.Spec.C04
+import WK.Gen.C04
 open WK WK.Repl
 /-
   C04 driver: model output (compared with the implementation) + the C04 judge on the
   implementation's observation.  ops/output: see harness/C04/repl_core.go.
+  Extra op `vmeta se sle sl km im me mle ml minisr isrlen`: the real
+  ChannelState.ValidateMeta against its regenerated translation WK.Gen.C04.validateMeta
+  (the definition c04_machine_meta is about); judge: a regression must never be accepted.
 -/
-def main : IO Unit := Drv.main { init := ({} : DS), step := replStep WK.C04.judge }
+def c04Step (st : DS) (op impl : String) : DS × String × String :=
+  match fields op with
+  | "vmeta" :: args =>
+    (match args.mapM natTok with
+     | some [se, sle, sl, km, im, me, mle, ml, mi, il] =>
+       if km > 1 ∨ im > 1 then (st, "bad-op", "ok") else
+       let out := WK.Gen.C04.validateMeta ⟨se, sle, sl⟩ ⟨km == 1, im == 1, me, mle, ml, (mi : Int), il⟩
+       let regress := me < se ∨ (me = se ∧ mle < sle) ∨ (me = se ∧ mle = sle ∧ ml ≠ sl)
+       (st, out, if impl == "ok" ∧ regress then "viol:meta-regression-accepted" else "ok")
+     | _ => (st, "bad-op", "ok"))
+  | _ => replStep WK.C04.judge st op impl
+
+def main : IO Unit := Drv.main { init := ({} : DS), step := c04Step }
